@@ -115,6 +115,9 @@ func (e *esdtNFTAddUri) ProcessBuiltinFunction(
 	if err != nil {
 		return nil, err
 	}
+	if esdtData.TokenMetaData == nil {
+		return nil, ErrNFTDoesNotHaveMetadata
+	}
 
 	esdtData.TokenMetaData.URIs = append(esdtData.TokenMetaData.URIs, vmInput.Arguments[2:]...)
 
